@@ -70,6 +70,11 @@ func (g *agen) schema(d int) O {
 	for i := 0; i < n; i++ {
 		g.feature(s, d)
 	}
+	if g.Pct(10) {
+		// a scalar "type" next to schema-bearing keywords: odd, loadable, and the keywords still hold schemas
+		s["type"] = g.Pick([]string{"string", "integer", "boolean"})
+		g.Label("scalar-typed-holder")
+	}
 	return s
 }
 
@@ -175,6 +180,11 @@ func (g *agen) param(i int, where string, shared []string) O {
 	if g.Pct(35) {
 		p["type"] = "array"
 		p["items"] = g.items(0)
+	}
+	if g.Pct(10) {
+		// a vendor extension that code generators read; it plays no part in which parameter overrides which
+		p["x-go-name"] = g.Pick([]string{"MaxItems", "ID"})
+		g.Label("param:x-go-name")
 	}
 	return p
 }
@@ -360,6 +370,10 @@ func GenAPIDoc(d *D, cfg APICfg) *APICase {
 		}
 		if g.Pct(40) {
 			n := g.Int(1, 2)
+			if g.Pct(15) {
+				n = []int{3, 5, 6}[g.Int(0, 2)] // longer lists: a decoded slice then has spare capacity
+				g.Label("path-level-params:many")
+			}
 			var ps A
 			for j := 0; j < n; j++ {
 				ps = append(ps, g.param(j, "path", sharedP))
@@ -398,7 +412,7 @@ func GenAPIDoc(d *D, cfg APICfg) *APICase {
 				}
 				op["parameters"] = ps
 			}
-			if !cfg.RespDesc || g.Pct(85) {
+			if g.Pct(88) {
 				rs := O{}
 				for _, c := range []string{"default", "200", "404"} {
 					if g.Pct(50) {
